@@ -183,10 +183,15 @@ def null_attr_kw(kw: str, inv: bool, hoh: bool, n0: bool, n1: bool, n2: bool, a:
 TEXTS = ["a", "ab", "b", "B", "abc"]
 
 
-def list_kw_text(kw: str, inv: bool, k: int) -> bool:
-    """max/min/unique/distinct over a list of TEXT values (pooled): lexicographic extremes, ties, repeats."""
+BIGINTS = [2 ** 53, 2 ** 53 + 1, 2 ** 53 + 2, 10 ** 18 + 1, -(2 ** 53) - 1]
+
+
+def list_kw_text(kw: str, inv: bool, k: int, big: bool = False) -> bool:
+    """max/min/unique/distinct over a list of TEXT values (pooled): lexicographic extremes, ties, repeats.
+    With big=True the pool holds integers beyond 2**53 whose neighbours collapse when converted to float."""
     from crosshair import realize
     k = realize(k)
+    TEXTS = BIGINTS if big else globals()["TEXTS"]
     n = len(TEXTS)
     vals = [TEXTS[k % n], TEXTS[(k // n) % n], TEXTS[(k // (n * n)) % n]]
     lst = cseq(*vals)
@@ -360,6 +365,11 @@ def shards(tier, seed):
             out.append(shard(PID, "text/%s%s" % ("not_" if inv else "", kw), "harness.c13", "list_kw_text(%r, %r, k)" % (kw, inv),
                              [("k", "int")], ["0 <= k < 125"], family="text", budget=900, kind="S",
                              desc="l[%s%s()] over three text values from a pool of 5 (selector)" % ("!" if inv else "", kw)))
+    for kw, inv in (("max", False), ("min", False), ("min", True), ("unique", False)):
+        out.append(shard(PID, "bigint/%s%s" % ("not_" if inv else "", kw), "harness.c13", "list_kw_text(%r, %r, k, True)" % (kw, inv),
+                         [("k", "int")], ["0 <= k < 125"], family="text", budget=900, kind="S",
+                         desc="l[%s%s()] over three integers from a pool of 5 beyond 2**53 (exact integer comparison; selector)"
+                              % ("!" if inv else "", kw)))
     for kw, invs in (("unique", (False, True)), ("distinct", (False,)), ("max", (False,)), ("min", (True,))):
         for inv in invs:
             out.append(shard(PID, "repeated/%s%s" % ("not_" if inv else "", kw), "harness.c13",
